@@ -13,7 +13,7 @@ src = open(os.path.join(HERE, "tools", "seed_meta.py")).read()
 ns = {}
 exec(src[src.index("NEEDS = {"):src.index("}\n", src.index("NEEDS = {")) + 2], ns)
 NEEDS = ns["NEEDS"]
-words = {2: "One other engineer has", 3: "Two", 4: "Three", 5: "Four", 6: "Five", 7: "Six", 8: "Seven", 9: "Eight", 10: "Nine", 11: "Ten", 12: "Eleven"}
+words = {2: "One other engineer has", 3: "Two", 4: "Three", 5: "Four", 6: "Five", 7: "Six", 8: "Seven", 9: "Eight", 10: "Nine", 11: "Ten", 12: "Eleven", 13: "Twelve"}
 for pid in sorted({k.split("-")[0] for k in NEEDS}):
     p0 = f"/tmp/prompts/{pid}_r{n - 1}.txt"
     if not os.path.exists(p0):
